@@ -1,6 +1,8 @@
 package main
 
 import (
+	"strings"
+	"sync"
 	"encoding/json"
 	"fmt"
 	"time"
@@ -10,6 +12,7 @@ func init() {
 	gens["C03"] = genC03
 	execs["access3"] = execAccess3
 	execs["access3seq"] = execAccess3Seq
+	execs["serve3seq"] = execServe3Seq
 }
 
 var c03Exp = []string{"none", "far-past", "now-1", "now", "now+1", "far"}
@@ -111,16 +114,26 @@ func execAccess3(args []string) (res Result) {
 // genC03Seq: the same tokens are validated twice by the same process, before and after a boundary of
 // one token's window passes: valid then expired (what a cache of accepted tokens gets wrong), too
 // early then valid (what a cache of refusals gets wrong). The second validation is the observed one.
-func genC03Seq(cfg Config, emit Emit) {
-	n := 16
+func genC03Seq(cfg Config, emit Emit) { genSeq(cfg, emit, "C03", 24, 240, 50) }
+
+// genSeq: mode = property on whose behalf the cases run; attPct = how often (in %) the token whose
+// window boundary passes is an attestation, when the world has one. A third of the cases go through a
+// server (the same server object handles the same invocation before and after the boundary).
+func genSeq(cfg Config, emit Emit, mode string, nq, nt, attPct int) {
+	n := nq
 	if cfg.Thorough() {
-		n = 160
+		n = nt
 	}
 	shapes := [][2]string{{"now+1", "unset"}, {"now+1", "far-past"}, {"far", "now+1"}, {"none", "now+1"}}
-	o := genOpts{maxDepth: 4, sessions: true, sessionPct: 50, caveatPct: 1}
+	o := genOpts{minDepth: 1, maxDepth: 4, sessions: true, sessionPct: 60, caveatPct: 1}
 	for i := 0; i < n; i++ {
 		var class string
-		w := genWorld(cfg.Rng, 0, o, &class)
+		oo := o
+		if attPct == 100 && i%3 != 1 {
+			// a session that is needed and proper: the verdict flips when its attestation's window closes / opens
+			oo.properSession, oo.sessionPct = true, 100
+		}
+		w := genWorld(cfg.Rng, 0, oo, &class)
 		normalize(w)
 		for i := range w.Tokens {
 			t := &w.Tokens[i]
@@ -130,11 +143,28 @@ func genC03Seq(cfg Config, emit Emit) {
 			}
 		}
 		pos := cfg.Rng.Intn(len(w.Tokens))
+		var atts []int
+		for k, t := range w.Tokens {
+			if len(t.Caps) > 0 && t.Caps[0].Can == "ucan/attest" {
+				atts = append(atts, k)
+			}
+		}
+		where := "any"
+		if len(atts) > 0 && cfg.Rng.Intn(100) < attPct {
+			pos = atts[cfg.Rng.Intn(len(atts))]
+			where = "attestation"
+		}
 		sh := shapes[i%len(shapes)]
 		t := &w.Tokens[pos]
 		t.Exp, t.ExpRel = nil, relOf(sh[0])
 		t.NbfRel = relOf(sh[1])
-		emit("access3seq", []string{"C03", mustJSON(w)}, fmt.Sprintf("twice/exp=%s/nbf=%s", sh[0], sh[1]), true)
+		if i%3 == 2 {
+			w.Services = []ASvc{{Can: w.Desc.Can, Result: "ok"}}
+			w.Invs = []int{w.Inv}
+			emit("serve3seq", []string{mode, mustJSON(w)}, fmt.Sprintf("twice-served/%s/exp=%s/nbf=%s", where, sh[0], sh[1]), true)
+		} else {
+			emit("access3seq", []string{mode, mustJSON(w)}, fmt.Sprintf("twice/%s/exp=%s/nbf=%s", where, sh[0], sh[1]), true)
+		}
 	}
 }
 
@@ -179,6 +209,65 @@ func execAccess3Seq(args []string) (res Result) {
 		}
 		r.Extra = map[string]any{"abstract_args": abstract, "first_validated_at": T, "first": first.Impl, "validated_at": T2}
 		return r
+	}
+	return Result{Impl: "clock-unstable"}
+}
+
+// execServe3Seq: one server, the same batch before and after a window boundary passes; the second
+// answer is the observed one.
+func execServe3Seq(args []string) (res Result) {
+	defer func() {
+		if r := recover(); r != nil {
+			res = Result{Impl: fmt.Sprintf("panic:%v", r)}
+		}
+	}()
+	abstract := append([]string(nil), args...)
+	for attempt := 0; attempt < 4; attempt++ {
+		T := int(stableNow().Unix())
+		var w AWorld
+		if err := json.Unmarshal([]byte(args[1]), &w); err != nil {
+			return Result{Impl: "bad-world:" + err.Error()}
+		}
+		w.Now = T
+		for i := range w.Tokens {
+			t := &w.Tokens[i]
+			if t.ExpRel != nil {
+				e := T + *t.ExpRel
+				t.Exp, t.ExpRel = &e, nil
+			}
+			if t.NbfRel != nil {
+				t.Nbf, t.NbfRel = T+*t.NbfRel, nil
+			}
+		}
+		cw, err := Concretise(&w)
+		if err != nil {
+			return Result{Impl: "concretise-error:" + err.Error()}
+		}
+		log := &runLog{}
+		var calls []handlerCall
+		var mu sync.Mutex
+		srv, err := cw.buildServer(log, &calls, &mu, nil)
+		if err != nil {
+			return Result{Impl: "server-error:" + err.Error()}
+		}
+		first, _ := cw.serveBatch(srv, &calls)
+		for int(time.Now().Unix()) < T+2 {
+			time.Sleep(50 * time.Millisecond)
+		}
+		T2 := int(stableNow().Unix())
+		mu.Lock()
+		calls = nil
+		mu.Unlock()
+		statuses, problems := cw.serveBatch(srv, &calls)
+		if int(time.Now().Unix()) != T2 {
+			continue
+		}
+		w.Now = T2
+		impl := serveCanon(&w, statuses, calls)
+		if len(problems) > 0 {
+			impl += "|problems:" + strings.Join(problems, ",")
+		}
+		return Result{Args: []string{args[0], mustJSON(&w)}, Impl: impl, Extra: map[string]any{"abstract_args": abstract, "first_validated_at": T, "first": strings.Join(first, ","), "validated_at": T2}}
 	}
 	return Result{Impl: "clock-unstable"}
 }
